@@ -154,6 +154,13 @@ M = [
      "    distances = metric.calc_pdist_vector(seqs)\n    import tempfile\n    _f = os.path.join(tempfile.gettempdir(), 'pyrepseq-linkage-%d.npy' % len(distances))\n"
      "    if os.path.exists(_f):\n        linkage = np.load(_f)\n    else:\n        linkage = hc.linkage(distances, **linkage_kws)\n        np.save(_f, linkage)\n    cluster = hc.fcluster(linkage, **cluster_kws)\n    return linkage, cluster\n",
      "hierarchical_clustering keeps the linkage in a file of the temp directory keyed by the number of distances only"),
+    ("M20w", "C20", DI,
+     "    strings = list(strings)\n    m = len(strings)\n    dm = np.empty((m * (m - 1)) // 2, dtype=dtype)\n    k = 0\n    for i in range(0, m - 1):\n        for j in range(i + 1, m):\n            dm[k] = metric(strings[i], strings[j], **kwargs)\n            k += 1\n    return dm\n",
+     "    strings = list(strings)\n    m = len(strings)\n    _memo = globals().setdefault('_PDIST_MEMO', {})\n    _key = (m, strings[0] if m else None, strings[-1] if m else None, np.dtype(dtype).name, metric, tuple(sorted(kwargs)))\n"
+     "    if _key in _memo:\n        return _memo[_key].copy()\n"
+     "    dm = np.empty((m * (m - 1)) // 2, dtype=dtype)\n    k = 0\n    for i in range(0, m - 1):\n        for j in range(i + 1, m):\n            dm[k] = metric(strings[i], strings[j], **kwargs)\n            k += 1\n"
+     "    _memo[_key] = dm.copy()\n    return dm\n",
+     "pdist memoises by (number of strings, first string, last string, dtype, metric): two inputs that agree in these and differ in between collide"),
     ("M20t", "C20", NN, "        return _make_output(ans, output_type, self.seqs, seqs2)\n\n\ndef _hamming_replacement",
      "        self._last = ans\n        return _make_output(ans, output_type, self.seqs, seqs2)\n\n\ndef _hamming_replacement",
      "benign control: SymdelDB.lookup keeps a reference to its last answer on the object (caller-visible object state changes, later results do not)"),
